@@ -1205,6 +1205,14 @@ class RoutingParameter:
     field: str
     path_template: str
 
+    @property
+    def disambiguated_field(self) -> str:
+        """The field path as spelled on the generated request object."""
+        return ".".join(
+            seg + "_" if seg in utils.RESERVED_NAMES else seg
+            for seg in self.field.split(".")
+        )
+
     def _split_into_segments(self, path_template):
         segments = path_template.split("/")
         named_segment_ids = [i for i, x in enumerate(segments) if "{" in x or "}" in x]
